@@ -171,9 +171,24 @@ func (c *AttackCtx) Apply(root *etree.Element, op Op) *etree.Element {
 		}
 	case "add-attr":
 		e := pick(els, op.A)
-		names := []string{"ID", "Destination", "InResponseTo", "Version", "IssueInstant", "NotOnOrAfter", "Recipient"}
-		e.CreateAttr(names[op.B%len(names)], op.S)
-		c.note("add-attr")
+		names := []string{"ID", "Destination", "InResponseTo", "Version", "IssueInstant", "NotOnOrAfter", "Recipient", "SignatureValidated", "SignatureValidated", "x:SignatureValidated", "ResponseSignatureValidated"}
+		n := names[op.B%len(names)]
+		v := op.S
+		if strings.Contains(n, "SignatureValidated") {
+			// names of the library's result fields: a decoder that maps them from the message would let the
+			// message vouch for itself
+			v = []string{"true", "1", "True"}[op.C%3]
+			if strings.HasPrefix(n, "x:") && e.SelectAttr("xmlns:x") == nil {
+				e.CreateAttr("xmlns:x", "urn:x")
+			}
+			if op.C%2 == 0 {
+				if as := byTag(root, "Assertion"); len(as) > 0 {
+					e = as[op.A%len(as)]
+				}
+			}
+		}
+		e.CreateAttr(n, v)
+		c.note("add-attr:" + n)
 	case "wrap-root":
 		root = c.wrapRoot(root, op)
 	case "forge-assertion":
